@@ -432,7 +432,7 @@ def binary_checks(res, a: Vec, sysA, tier):
                     na = mpmath.sqrt(sum(x * x for x in ga[:n]))
                     nb = mpmath.sqrt(sum(x * x for x in gb[:n]))
                     cos = sum(p * q for p, q in zip(ga[:n], gb[:n])) / (na * nb)
-                    for T in TOLS:
+                    for T in TOLS + [1.5, 2.5]:  # tolerances are in cosine units: above 1 they are unusual but legitimate
                         for pred, dist in (("is_parallel", 1 - cos), ("is_antiparallel", 1 + cos), ("is_perpendicular", abs(cos))):
                             res.transitions += 1
                             got = bool(conv(getattr(va, pred)(vb, T)))
